@@ -20,7 +20,8 @@ static std::string judge(const Spec &s, const NumCase &c, const std::string &sub
       if (o.status == 3) st.count("skipped_near_switching_surface");
       if (o.status != 3 && o.err < 1e299) { int b = o.err <= 0 ? -20 : (int)floor(log2(o.err)); if (b > 40) b = 40; if (b < -20) b = -20; st.count("errhist_log2:" + std::to_string(b)); st.maxi("max_err:" + s.name + "/" + o.label + (c.prec ? "/ld" : "/d"), o.err); }
       if (o.errab >= 0) { st.maxi("max_errab:" + s.name + "/" + o.label + (c.prec ? "/ld" : "/d"), o.errab); int b = o.errab <= 0 ? -20 : (int)floor(log2(o.errab)); st.count("errabhist_log2:" + std::to_string(b)); }
-      if (o.status == 0 && !o.finding_cell && o.err < 1e299) st.maxi(std::string("max_err_eps_mag(clean cells):") + (c.prec ? "ld" : "d"), o.err);
+      if (o.directed) st.count("evaluations_under_directed_rounding");
+      if (o.status == 0 && !o.finding_cell && o.err < 1e299) st.maxi(std::string(o.directed ? "max_err_eps_mag(clean cells, directed rounding):" : "max_err_eps_mag(clean cells):") + (c.prec ? "ld" : "d"), o.err);
       if (o.status == 2) { st.count("known_finding_cells:" + o.finding);
         std::string f = g_faildir + "/finding_" + slug(o.finding) + ".case";
         struct stat sb; if (stat(f.c_str(), &sb) != 0) { NumCase cc = c; write_file(f, case_to_text(cc, g_prop, o.label)); st.findings.push_back("{\"key\":\"" + jesc(o.finding) + "\",\"file\":\"" + jesc(f) + "\",\"note\":\"" + jesc(o.note) + "\"}"); } } }
